@@ -31,9 +31,9 @@ ASSUMPTIONS = ["--limit stays above the number of rows", "churn never makes a mo
 
 worker_init = c02.worker_init
 
-FUNC_CHURN = ["removed", "class", "value", "local", "renamed"]
-METHOD_CHURN = ["removed", "value", "sproperty", "renamed"]
-CLASS_CHURN = ["removed", "value", "function"]
+FUNC_CHURN = ["removed", "class", "value", "lazyobj", "local", "renamed"]
+METHOD_CHURN = ["removed", "value", "lazyobj", "sproperty", "renamed"]
+CLASS_CHURN = ["removed", "value", "lazyobj", "function"]
 
 
 def n_runs(tier):
@@ -235,7 +235,7 @@ def model(spec):
     for f in spec["funcs"]:
         if f.get("cls") or f["module"] in rm:
             continue
-        if f.get("churn") in ("removed", "class", "value", "local") or f["kind"] == "sproperty":
+        if f.get("churn") in ("removed", "class", "value", "lazyobj", "local") or f["kind"] == "sproperty":
             continue
         funcs.add((pkg + "." + f["module"], f["name"]))
     # attribute lookup on a class walks its MRO: a removed override falls back to the inherited method
@@ -256,7 +256,7 @@ def model(spec):
                 xc = next(y for y in spec["classes"] if y["name"] == x)
                 if xc["module"] in rm or x in dead_cls:
                     break
-                if f.get("churn") in ("value", "sproperty") or f["kind"] == "sproperty":
+                if f.get("churn") in ("value", "lazyobj", "sproperty") or f["kind"] == "sproperty":
                     break
                 funcs.add((pkg + "." + c["module"], class_path(spec, c["name"]) + "." + n))
                 break
